@@ -282,4 +282,28 @@ theorem C12_recreated_is_dead (cfg : FDConfig) (fd : FD) (i : Id) (now : Nat) (h
 example : ({ cfg := ⟨⟨[1], 0, .v4 [127, 0, 0, 1] 1⟩, [99], 10, ⟨8, 1, 10, 10, 5, 100⟩, none, 4⟩ } : Node).LivenessInv :=
   ⟨FD.disjoint_empty, rfl, by intro h; cases h⟩
 
+/-- **C12 (the time of death is set once).** An evaluation that finds an already dead member still
+not alive leaves its time of death alone — stale heartbeats, whatever they do to the sampling
+window, cannot restart the grace period; and reports never touch it. -/
+theorem C12_time_of_death_stable (cfg : FDConfig) (fd : FD) (i : Id) (now t : Nat)
+    (hdead : AL.lookup i fd.dead = some t) (hna : fd.isAlive cfg i now = false) :
+    AL.lookup i (fd.updateNodeLiveness cfg i now).dead = some t := by
+  unfold FD.updateNodeLiveness
+  rw [if_neg (by rw [hna]; simp)]
+  simp only [hdead]
+
+theorem C12_time_of_death_other (cfg : FDConfig) (fd : FD) (i j : Id) (now : Nat) (hij : j ≠ i) :
+    AL.lookup j (fd.updateNodeLiveness cfg i now).dead = AL.lookup j fd.dead := by
+  unfold FD.updateNodeLiveness
+  split
+  · simp only; rw [AL.lookup_erase]; simp [hij]
+  · simp only
+    split
+    · rfl
+    · rw [AL.lookup_insert_ne _ _ _ _ _ hij]
+
+theorem C12_report_keeps_time_of_death (cfg : FDConfig) (fd : FD) (i : Id) (now : Nat) :
+    (fd.reportHeartbeat cfg i now).dead = fd.dead := rfl
+
+
 end Chitchat
